@@ -256,6 +256,7 @@ pub struct Machine {
     addrs: HashMap<usize, u64>,
     gmeta: HashMap<u64, (usize, u64, bool)>,
     cells: HashMap<(usize, u64), u64>,
+    cell_raw: HashMap<(usize, u64), usize>,
     pub nt: usize,
     pub bad: Vec<bool>, // index t (1-based; [0] unused)
     pub max_g: usize,
@@ -291,6 +292,7 @@ impl Machine {
             addrs: HashMap::new(),
             gmeta: HashMap::new(),
             cells: HashMap::new(),
+            cell_raw: HashMap::new(),
             nt,
             bad,
             max_g,
@@ -406,6 +408,7 @@ impl Machine {
         // SAFETY: nothing borrows the world
         let w = unsafe { &mut *self.world };
         let a = by_type!(t, b, do_insert(w, d, v));
+        self.cell_raw.insert((t, d), a);
         let a = self.aid(a);
         self.cells.insert((t, d), a);
         json!({"ev":"ins","t":t,"d":d,"a":a,"v":v,"b":self.probe()})
@@ -418,6 +421,7 @@ impl Machine {
         let w = unsafe { &mut *self.world };
         let was = by_type!(t, b, do_remove(w, d));
         self.cells.remove(&(t, d));
+        self.cell_raw.remove(&(t, d));
         json!({"ev":"rem","t":t,"d":d,"out": if was {"some"} else {"none"},"b":self.probe()})
     }
 
@@ -467,13 +471,20 @@ impl Machine {
             let res = gd.res_mut().expect("HARNESS: get_mut needs an exclusive guard");
             catch_unwind(AssertUnwindSafe(|| {
                 tab.get_mut(res).map(|o| {
+                    // safety net of the harness: never WRITE through a trait object that claims
+                    // to be something else than what was passed in (the observation is recorded as is)
+                    if o.tag() as usize != t || o.addr() != ain {
+                        return (o.tag(), o.addr(), 0);
+                    }
                     let v = o.bump();
                     (o.tag(), o.addr(), v)
                 })
             }))
         } else {
             let res = gd.res();
-            catch_unwind(AssertUnwindSafe(|| tab.get(res).map(|o| (o.tag(), o.addr(), o.val()))))
+            catch_unwind(AssertUnwindSafe(|| {
+                tab.get(res).map(|o| if o.tag() as usize != t || o.addr() != ain { (o.tag(), o.addr(), 0) } else { (o.tag(), o.addr(), o.val()) })
+            }))
         };
         self.obs(if mutable { "getmut" } else { "get" }, t, d, g, ain, r)
     }
@@ -487,13 +498,20 @@ impl Machine {
             let res = o.res_mut();
             catch_unwind(AssertUnwindSafe(|| {
                 tab.get_mut(res).map(|o| {
+                    // safety net of the harness: never WRITE through a trait object that claims
+                    // to be something else than what was passed in (the observation is recorded as is)
+                    if o.tag() as usize != t || o.addr() != ain {
+                        return (o.tag(), o.addr(), 0);
+                    }
                     let v = o.bump();
                     (o.tag(), o.addr(), v)
                 })
             }))
         } else {
             let res = o.res();
-            catch_unwind(AssertUnwindSafe(|| tab.get(res).map(|o| (o.tag(), o.addr(), o.val()))))
+            catch_unwind(AssertUnwindSafe(|| {
+                tab.get(res).map(|o| if o.tag() as usize != t || o.addr() != ain { (o.tag(), o.addr(), 0) } else { (o.tag(), o.addr(), o.val()) })
+            }))
         };
         self.obs(if mutable { "getmut" } else { "get" }, t, 2, 0, ain, r)
     }
@@ -508,13 +526,18 @@ impl Machine {
     /// `next()`; a yielded item is kept alive as guard `g`.  An iterator whose
     /// `next` panicked is dropped.
     pub fn next(&mut self, h: u64, g: u64) -> Value {
+        let raw = self.cell_raw.clone();
+        // safety net of the harness: only read / write the value through an item that is, by its
+        // own account, the object stored in the world cell of its own type
+        let genuine = move |tag: u32, addr: usize| raw.get(&(tag as usize, 0)) == Some(&addr);
         let it = self.iters.get_mut(&h).expect("HARNESS: no such iterator");
         let (k, r) = match it {
             Iter::R(i) => (
                 "r",
                 catch_unwind(AssertUnwindSafe(|| {
                     i.next().map(|item| {
-                        let o = (item.tag(), item.addr(), item.val());
+                        let v = if genuine(item.tag(), item.addr()) { item.val() } else { 0 };
+                        let o = (item.tag(), item.addr(), v);
                         (o, Guard::ItemR(item))
                     })
                 })),
@@ -523,7 +546,7 @@ impl Machine {
                 "w",
                 catch_unwind(AssertUnwindSafe(|| {
                     i.next().map(|mut item| {
-                        let v = item.bump();
+                        let v = if genuine(item.tag(), item.addr()) { item.bump() } else { 0 };
                         let o = (item.tag(), item.addr(), v);
                         (o, Guard::ItemW(item))
                     })
